@@ -107,3 +107,7 @@ def cases(tier, seed, ctx=None):
     for j in range(4 if tier == "quick" else 24):
         rq = (b"POST /big HTTP/1.1\r\nContent-Length: 5\r\n\r\nhello" if j % 2 else b"POST /x HTTP/1.1\r\nContent-Length: 5\r\n\r\nhello")
         yield ("tlsraw", [rq, j % 4 // 2, 40, rng.choice([[], [7]]), 1, rng.choice([100000, 300000])], "%s-surplus-before-the-answer" % 'tlsraw')
+    # the application writes its body in two event-loop turns and closes from the write-progress notification that completes it:
+    # everything written before the close reaches the client, over TLS as over plain TCP
+    for j in range(2 if tier == "quick" else 10):
+        yield ("tlsraw", [b"GET /notify HTTP/1.1\r\nHost: h\r\n\r\n", 0, 0, [], 1, 0, 0], "tlsraw-close-from-the-notification")
